@@ -41,7 +41,13 @@ def main():
             ctx.crash = "provenance: yarl not imported from the stage"
         else:
             mod = importlib.import_module("yv.props." + spec["prop"].lower())
-            mod.run(ctx)
+            k = int(spec.get("threads", 0) or 0)
+            if k > 1:
+                ctx.threaded(k, lambda rec, tid: mod.run(rec))
+                ctx.count("shared_thread_runs", k)
+                ctx.notes["threads"] = k
+            else:
+                mod.run(ctx)
     except BaseException:
         ctx.crash = traceback.format_exc()[-6000:]
     ctx.dump(spec["out"])
